@@ -33,14 +33,17 @@ impl<R: io::Read> IoReader<R> {
 
     /// Fill the internal buffer with the given length
     pub fn fill_buffer(&mut self, len: usize) -> Result<(), io::Error> {
-        let l = self.buf.len();
-        if l < len {
-            self.buf.resize(len, 0);
-            self.reader.read_exact(&mut self.buf[l..])?;
-            Ok(())
-        } else {
-            Ok(())
+        // `len` may be a length taken from the wire: grow the buffer as the bytes arrive
+        while self.buf.len() < len {
+            let filled = self.buf.len();
+            let step = (len - filled).min(super::READ_BYTES_STEP);
+            self.buf.resize(filled + step, 0);
+            if let Err(err) = self.reader.read_exact(&mut self.buf[filled..]) {
+                self.buf.truncate(filled);
+                return Err(err);
+            }
         }
+        Ok(())
     }
 }
 
